@@ -124,10 +124,15 @@ Section TopP.
 End TopP.
 
 (* ----------------------------------------------------------- Temperature *)
+(* the f32 operations the filters use; a parameter of the model so that the theorems hold for
+   every implementation of them ([f32ops] below is the one the correspondence check uses) *)
+Record fops := { op_add : N -> N -> N; op_mul : N -> N -> N; op_div : N -> N -> N }.
+Definition f32ops : fops := {| op_add := fadd; op_mul := fmul; op_div := fdiv |}.
+
 (* if t == 1.0 return; inv = 1.0 / t; for x in logits { *x *= inv } *)
-Definition temperature (t : N) (l : list entry) : list entry :=
+Definition temperature (ops : fops) (t : N) (l : list entry) : list entry :=
   if feq t one_bits then l
-  else let inv := fdiv one_bits t in map (fun e => (e_id e, fmul (e_sc e) inv)) l.
+  else let inv := op_div ops one_bits t in map (fun e => (e_id e, op_mul ops (e_sc e) inv)) l.
 
 (* --------------------------------------------------------- TokenIdFilter *)
 Inductive pred := PEven | PGt (c : N) | PLt (c : N).
@@ -153,7 +158,7 @@ Definition norm_of (fx : bool) (m : nmode) : bool :=
 Section Run.
   Variable fx : bool.
   Variable w : nat.
-  Variable add : N -> N -> N.
+  Variable ops : fops.
   Variable sm : list N -> list N.
 
   Definition bind (o : outcome) (f : list entry -> outcome) : outcome :=
@@ -163,8 +168,8 @@ Section Run.
   Fixpoint run (f : filt) (l : list entry) : outcome :=
     match f with
     | FTopK k => topk fx w k l
-    | FTopP p m => topp add sm p (norm_of fx m) l
-    | FTemp t => Ok (temperature t l)
+    | FTopP p m => topp (op_add ops) sm p (norm_of fx m) l
+    | FTemp t => Ok (temperature ops t l)
     | FIdF p => Ok (id_filter p l)
     | FSort => Ok (sort_desc l)
     | FChain fs =>
@@ -295,9 +300,9 @@ Record case := {
 Definition model_w : nat := 8.          (* any width >= 1 gives the same result (theorem) *)
 
 Definition model_out (c : case) : outcome :=
-  run_list true model_w fadd (sm_of_tbl (c_tbl c)) (c_chain c) (c_in c).
+  run_list true model_w f32ops (sm_of_tbl (c_tbl c)) (c_chain c) (c_in c).
 Definition model_steps (c : case) : list outcome :=
-  run_steps true model_w fadd (sm_of_tbl (c_tbl c)) (flatten (c_chain c)) (c_in c).
+  run_steps true model_w f32ops (sm_of_tbl (c_tbl c)) (flatten (c_chain c)) (c_in c).
 
 Definition agree (c : case) : bool :=
   outcome_eqb (model_out c) (c_out c) && outcomes_eqb (model_steps c) (c_steps c).
@@ -309,7 +314,7 @@ Definition step_ok_b (sm : list N -> list N) (f : filt) (l : list entry) (o : ou
       match f with
       | FTopK k => topk_ok_b k l out
       | FTopP p m => topp_ok_b fadd sm p (norm_of true m) l out
-      | FTemp t => entries_eqb out (temperature t l)
+      | FTemp t => entries_eqb out (temperature f32ops t l)
       | FIdF p => entries_eqb out (id_filter p l)
       | FSort => (length out =? length l)%nat && topk_ok_b (N.of_nat (length l)) l out
       | FChain _ => false             (* flattened chains contain no FChain *)
